@@ -218,12 +218,33 @@ def coverage(prog, rep, sd: FuncInfo) -> None:
     from ..symex import resolve
     ff = facts_for(sd)
     calls = [n for n in own_nodes(sd.node) if isinstance(n, ast.Call) and dotted(n.func) == "deriv_check"]
+    # a local wrapper `def check(func, deriv): deriv_check(func, x, deriv, params)`: its call sites are the checks
+    wrappers = {}
+    for d in [n for n in ast.walk(sd.node) if isinstance(n, ast.FunctionDef) and n is not sd.node]:
+        b_ = [x for x in d.body if not (isinstance(x, ast.Expr) and isinstance(x.value, ast.Constant))]
+        if len(b_) == 1 and isinstance(b_[0], (ast.Expr, ast.Return)) and isinstance(b_[0].value, ast.Call) and dotted(b_[0].value.func) == "deriv_check" \
+                and not d.args.vararg and not d.args.kwarg:
+            wrappers[d.name] = (d, b_[0].value)
+    if wrappers:
+        virt = []
+        for n in own_nodes(sd.node):
+            if isinstance(n, ast.Call) and isinstance(n.func, ast.Name) and n.func.id in wrappers and not n.keywords:
+                d, inner = wrappers[n.func.id]
+                ps = [a.arg for a in d.args.args]
+                if len(ps) != len(n.args):
+                    raise AnalysisError(f"{sd.short}: call of the local wrapper `{d.name}` does not match its parameters")
+                sub = dict(zip(ps, n.args))
+                vc = ast.Call(func=inner.func, args=[sub[a.id] if isinstance(a, ast.Name) and a.id in sub else a for a in inner.args], keywords=[])
+                ast.copy_location(vc, n)
+                vc._site = n
+                virt.append(vc)
+        calls = virt
     kinds = {}
     DC = "pygradflow.params.DerivCheck"
     ev = "self.evaluator"
     LP = "__lam__"
     for c in calls:
-        si = ff.stmt_of(c)
+        si = ff.stmt_of(getattr(c, "_site", c))
         lam = c.args[0] if c.args else None
         lam_body = None
         if isinstance(lam, ast.Name):
@@ -290,6 +311,10 @@ def coverage(prog, rep, sd: FuncInfo) -> None:
     rep.check(kinds.get("hessian") == "CheckSecond", "derivative-kinds-covered", sd.qualname, "CheckSecond",
               f"under CheckSecond the Lagrangian Hessian is checked against x -> obj_grad(x) + cons_jac(x)'y with the same y (found {kinds})", sd.loc())
     early = [r for r in returns_of(sd) if r.value is None]
-    ok = any(any(f[0] == "==" and "DerivCheck.NoCheck" in (f[1] + (f[2] or "")) for f in ff.at(r).facts) and ff.at(r).index < min(ff.stmt_of(c).index for c in calls) for r in early) if calls else False
+    sites_ = [ff.stmt_of(getattr(c, "_site", c)) for c in calls]
+    ok = any(any(f[0] == "==" and "DerivCheck.NoCheck" in (f[1] + (f[2] or "")) for f in ff.at(r).facts) and ff.at(r).index < min(s_.index for s_ in sites_) for r in early) if calls else False
+    # or: everything the check evaluates sits under `deriv_check != NoCheck`
+    if not ok and calls:
+        ok = all(any(f[0] == "!=" and "DerivCheck.NoCheck" in (f[1] + (f[2] or "")) for f in s_.facts) for s_ in sites_)
     rep.check(ok, "derivative-kinds-covered", sd.qualname, "NoCheck", "NoCheck returns before anything is evaluated", sd.loc())
     rep.pin("deriv_check call sites", len(calls), 3)
